@@ -6,8 +6,10 @@ package main
 import (
 	"errors"
 	"fmt"
+	"math/rand/v2"
 	"reflect"
 	"runtime"
+	"strings"
 
 	"verif/vrt"
 
@@ -33,31 +35,49 @@ type dynSite struct {
 	Key, Family string
 	Monad       int
 	MinL, MaxL  int
+	Flags, Res  int
 	Steps       func(L int) []step
 	Exec        func(t *T, L int)
 }
 
 var dynSites []dynSite
 
-// regTrav registers a sequence-shaped site: positions = elements; when operand is true an
-// additional monadic operand (position 0) precedes the elements. cb: every element owns a user
-// function (traverse / fold function); otherwise the elements are monadic values themselves.
-func regTrav(key string, monad int, operand, cb bool, exec func(t *T, L int)) {
-	regTravL(key, monad, operand, cb, 0, 8, exec)
+// flags of a sequence-shaped site: positions = elements.
+const (
+	tvOperand = 1 << iota // an additional monadic operand (position 0) precedes the elements
+	tvCb                  // every element owns a user function (traverse / fold function); otherwise the elements are monadic values themselves
+	tvFn                  // the library call returns a function value which the site applies (t.run)
+	tvPure                // the elements' user function is pure: an element cannot fail (MapSeqLift)
+	tvFixed               // the operand is a plain value handed over when the function value is built
+)
+
+// what a success of the site must carry (nil ≡ empty)
+const (
+	resNone  = iota
+	resPlus7 // the traverse function's results, in order (travX returns a+7)
+	resVals  // the elements' own values, in order (Sequence*)
+	resSum   // the fold of the elements (foldX returns acc+a)
+)
+
+func regTrav(key string, monad, flags, res int, exec func(t *T, L int)) {
+	regTravL(key, monad, flags, res, 0, 8, exec)
 }
 
-func regTravL(key string, monad int, operand, cb bool, minL, maxL int, exec func(t *T, L int)) {
-	dynSites = append(dynSites, dynSite{Key: key, Family: key, Monad: monad, MinL: minL, MaxL: maxL, Exec: exec,
+func regTravL(key string, monad, flags, res, minL, maxL int, exec func(t *T, L int)) {
+	dynSites = append(dynSites, dynSite{Key: key, Family: key, Monad: monad, MinL: minL, MaxL: maxL, Exec: exec, Flags: flags, Res: res,
 		Steps: func(L int) []step {
 			var st []step
 			base := 0
-			if operand {
-				st = append(st, step{Bit: 0})
+			if flags&tvOperand != 0 {
+				st = append(st, step{Bit: 0, Fixed: flags&tvFixed != 0})
 				base = 1
 			}
 			for k := base; k < base+L; k++ {
 				s := step{Bit: k}
-				if cb {
+				if flags&tvPure != 0 {
+					s.Bit = -1
+				}
+				if flags&tvCb != 0 {
 					s.Cb, s.CbArgs = idSup+k, []int{k}
 				}
 				st = append(st, s)
@@ -66,7 +86,110 @@ func regTravL(key string, monad int, operand, cb bool, minL, maxL int, exec func
 		}})
 }
 
+func (d *dynSite) want() func(t *T, s *site) any {
+	if d.Res == resNone {
+		return nil
+	}
+	base := 0
+	if d.Flags&tvOperand != 0 {
+		base = 1
+	}
+	res := d.Res
+	return func(t *T, s *site) any {
+		out := make([]int, 0, s.N)
+		sum := 0
+		for k := base; k < base+s.N; k++ {
+			switch res {
+			case resPlus7:
+				out = append(out, t.vals[k]+7)
+			case resVals:
+				out = append(out, t.vals[k])
+			}
+			sum += t.vals[k]
+		}
+		if res == resSum {
+			return sum
+		}
+		return out
+	}
+}
+
 const longMin, longMax = 9, 40
+
+// sizedLengths: lengths around the thresholds an implementation might plausibly switch strategy at
+// (chunking, divide and conquer, small-array fast paths). Run in BOTH tiers.
+var sizedLengths = []int{15, 16, 17, 31, 32, 33, 34, 63, 64, 65, 100, 128, 129, 257}
+
+// failing-position patterns of a sized case (element indices 0..L-1)
+const (
+	spNone = iota
+	spFirst
+	spMiddle       // (L-1)/2
+	spLastOfLeft   // L/2-1
+	spFirstOfRight // L/2
+	spLast
+	spQuarter       // L/4
+	spThreeQuarter  // 3L/4
+	spSecond        // 1
+	spPairQuarters  // L/4 and 3L/4
+	spPairAroundMid // L/2-1 and L/2
+	spPairEnds      // 0 and L-1
+	spRandomOne
+	spRandomPairHalves // one random position in each half
+	spOperandAndRandom // the operand (if any) and one random element
+	nSizedPatterns
+)
+
+var sizedPatternNames = []string{"none", "first", "middle", "last-of-left-half", "first-of-right-half", "last", "quarter", "three-quarters", "second",
+	"quarter+three-quarters", "last-of-left+first-of-right", "first+last", "random-one", "random-pair-in-different-halves", "operand+random"}
+
+// sizedMask: the failing positions of pattern p for L elements starting at position base.
+func sizedMask(p, L, base int, r *rand.Rand) fmask {
+	var m fmask
+	el := func(e int) {
+		if e >= 0 && e < L {
+			m.set(base + e)
+		}
+	}
+	switch p {
+	case spFirst:
+		el(0)
+	case spMiddle:
+		el((L - 1) / 2)
+	case spLastOfLeft:
+		el(L/2 - 1)
+	case spFirstOfRight:
+		el(L / 2)
+	case spLast:
+		el(L - 1)
+	case spQuarter:
+		el(L / 4)
+	case spThreeQuarter:
+		el(3 * L / 4)
+	case spSecond:
+		el(1)
+	case spPairQuarters:
+		el(L / 4)
+		el(3 * L / 4)
+	case spPairAroundMid:
+		el(L/2 - 1)
+		el(L / 2)
+	case spPairEnds:
+		el(0)
+		el(L - 1)
+	case spRandomOne:
+		el(r.IntN(L))
+	case spRandomPairHalves:
+		el(r.IntN(L / 2))
+		el(L/2 + r.IntN(L-L/2))
+	case spOperandAndRandom:
+		if base > 0 {
+			m.set(0)
+		}
+		el(r.IntN(L))
+	}
+	return m
+}
 
 // buildTable expands static and dynamic sites for a tier.
 func buildTable(tier string) []*site {
@@ -76,14 +199,20 @@ func buildTable(tier string) []*site {
 	}
 	for _, d := range dynSites {
 		d := d
+		fn := d.Flags&tvFn != 0
 		for L := d.MinL; L <= d.MaxL; L++ {
 			L := L
-			out = append(out, &site{Key: d.Key, Family: d.Family, N: L, Monad: d.Monad, WantVal: -1, Steps: d.Steps(L),
+			out = append(out, &site{Key: d.Key, Family: d.Family, N: L, Monad: d.Monad, WantVal: -1, Steps: d.Steps(L), Fn: fn, Want: d.want(),
 				Exec: func(t *T) { d.Exec(t, L) }})
+		}
+		if d.MaxL >= 8 {
+			// lengths around plausible implementation thresholds x failing-position patterns
+			out = append(out, &site{Key: d.Key, Family: d.Family + "/sized", N: -1, Monad: d.Monad, WantVal: -1, NSized: len(sizedLengths) * nSizedPatterns,
+				DynSteps: d.Steps, Fn: fn, Want: d.want(), Exec: func(t *T) { d.Exec(t, t.s.N) }})
 		}
 		if tier == "thorough" && d.MaxL == 8 {
 			// longer sequences with random multi-failure sets (mask and length from the case PRNG)
-			out = append(out, &site{Key: d.Key, Family: d.Family + "/long", N: -1, Monad: d.Monad, WantVal: -1, NRandom: 300, DynSteps: d.Steps,
+			out = append(out, &site{Key: d.Key, Family: d.Family + "/long", N: -1, Monad: d.Monad, WantVal: -1, NRandom: 300, DynSteps: d.Steps, Fn: fn, Want: d.want(),
 				Exec: func(t *T) { d.Exec(t, t.s.N) }})
 		}
 	}
@@ -137,6 +266,9 @@ func travEit(t *T) func(int) fp.Either[error, int] {
 }
 func travSt(t *T) func(int) fp.StateT[int, int] {
 	return func(a int) fp.StateT[int, int] { k := posOf(a); t.call(idSup+k, a); return stV(t, k, a+7) }
+}
+func travPure(t *T) func(int) int {
+	return func(a int) int { k := posOf(a); t.call(idSup+k, a); return a + 7 }
 }
 func travErr(t *T) func(int) error {
 	return func(a int) error {
@@ -193,44 +325,44 @@ func seqSt(t *T, base, n int) []fp.StateT[int, int] {
 
 func init() {
 	// non-generated sequence-shaped combinators
-	regTrav("try.Traverse_", mErr, false, true, func(t *T, L int) { resErr(t, try.Traverse_(t.iter(0, L), travTry(t))) })
-	regTravL("try.TraverseOption", mTry, false, true, 0, 1, func(t *T, L int) {
+	regTrav("try.Traverse_", mErr, tvCb, resNone, func(t *T, L int) { resErr(t, try.Traverse_(t.iter(0, L), travTry(t))) })
+	regTravL("try.TraverseOption", mTry, tvCb, resNone, 0, 1, func(t *T, L int) {
 		o := fp.None[int]()
 		if L == 1 {
 			o = fp.Some(t.vals[0])
 		}
 		resTry(t, try.TraverseOption(o, travTry(t)))
 	})
-	regTravL("try.TraverseOptionT", mTry, true, true, 0, 1, func(t *T, L int) {
+	regTravL("try.TraverseOptionT", mTry, tvOperand|tvCb, resNone, 0, 1, func(t *T, L int) {
 		o := fp.None[int]()
 		if L == 1 {
 			o = fp.Some(t.vals[1])
 		}
 		resTry(t, try.TraverseOptionT(tryV(t, 0, o), travTry(t)))
 	})
-	regTrav("try.TraverseSeqT", mTry, true, true, func(t *T, L int) {
+	regTrav("try.TraverseSeqT", mTry, tvOperand|tvCb, resPlus7, func(t *T, L int) {
 		resTry(t, try.TraverseSeqT(tryV(t, 0, fp.Seq[int](t.elems(1, L))), travTry(t)))
 	})
-	regTrav("try.FlatMapSeqT", mTry, true, true, func(t *T, L int) {
+	regTrav("try.FlatMapSeqT", mTry, tvOperand|tvCb, resNone, func(t *T, L int) {
 		resTry(t, try.FlatMapSeqT(tryV(t, 0, fp.Seq[int](t.elems(1, L))), func(a int) fp.Try[fp.Seq[int]] {
 			k := posOf(a)
 			t.call(idSup+k, a)
 			return tryV(t, k, fp.Seq[int]{a, a + 1})
 		}))
 	})
-	regTrav("seq.FoldTry", mTry, false, true, func(t *T, L int) { resTry(t, seq.FoldTry(fp.Seq[int](t.elems(0, L)), 0, foldTry(t))) })
-	regTrav("seq.FoldOption", mOption, false, true, func(t *T, L int) { resOpt(t, seq.FoldOption(fp.Seq[int](t.elems(0, L)), 0, foldOpt(t))) })
-	regTrav("seq.FoldError", mErr, false, true, func(t *T, L int) { resErr(t, seq.FoldError(fp.Seq[int](t.elems(0, L)), travErr(t))) })
-	regTrav("iterator.FoldTry", mTry, false, true, func(t *T, L int) { resTry(t, iterator.FoldTry(t.iter(0, L), 0, foldTry(t))) })
-	regTrav("iterator.FoldOption", mOption, false, true, func(t *T, L int) { resOpt(t, iterator.FoldOption(t.iter(0, L), 0, foldOpt(t))) })
-	regTrav("iterator.FoldError", mErr, false, true, func(t *T, L int) { resErr(t, iterator.FoldError(t.iter(0, L), travErr(t))) })
-	regTrav("list.FoldTry", mTry, false, true, func(t *T, L int) { resTry(t, list.FoldTry(list.Of(t.elems(0, L)...), 0, foldTry(t))) })
-	regTrav("list.FoldOption", mOption, false, true, func(t *T, L int) {
+	regTrav("seq.FoldTry", mTry, tvCb, resSum, func(t *T, L int) { resTry(t, seq.FoldTry(fp.Seq[int](t.elems(0, L)), 0, foldTry(t))) })
+	regTrav("seq.FoldOption", mOption, tvCb, resSum, func(t *T, L int) { resOpt(t, seq.FoldOption(fp.Seq[int](t.elems(0, L)), 0, foldOpt(t))) })
+	regTrav("seq.FoldError", mErr, tvCb, resNone, func(t *T, L int) { resErr(t, seq.FoldError(fp.Seq[int](t.elems(0, L)), travErr(t))) })
+	regTrav("iterator.FoldTry", mTry, tvCb, resSum, func(t *T, L int) { resTry(t, iterator.FoldTry(t.iter(0, L), 0, foldTry(t))) })
+	regTrav("iterator.FoldOption", mOption, tvCb, resSum, func(t *T, L int) { resOpt(t, iterator.FoldOption(t.iter(0, L), 0, foldOpt(t))) })
+	regTrav("iterator.FoldError", mErr, tvCb, resNone, func(t *T, L int) { resErr(t, iterator.FoldError(t.iter(0, L), travErr(t))) })
+	regTrav("list.FoldTry", mTry, tvCb, resSum, func(t *T, L int) { resTry(t, list.FoldTry(list.Of(t.elems(0, L)...), 0, foldTry(t))) })
+	regTrav("list.FoldOption", mOption, tvCb, resSum, func(t *T, L int) {
 		resOpt(t, list.FoldOption(list.Of(t.elems(0, L)...), 0, foldOpt(t)))
 	})
-	regTrav("list.FoldError", mErr, false, true, func(t *T, L int) { resErr(t, list.FoldError(list.Of(t.elems(0, L)...), travErr(t))) })
+	regTrav("list.FoldError", mErr, tvCb, resNone, func(t *T, L int) { resErr(t, list.FoldError(list.Of(t.elems(0, L)...), travErr(t))) })
 	// statet.Concat(start, tail...): variadic sequencing of state functions
-	regTravL("statet.Concat", mState, false, false, 1, 9, func(t *T, L int) {
+	regTravL("statet.Concat", mState, 0, resNone, 1, 9, func(t *T, L int) {
 		ops := seqSt(t, 0, L)
 		resSt(t, statet.Concat(ops[0], ops[1:]...))
 	})
@@ -247,41 +379,45 @@ func init() {
 		Exec: func(t *T) { resOpt(t, optV(t, 0, t.vals[0]).FlatMap(fn1(t, idF, retOpt(t, 1)))) }})
 	reg(&site{Key: "try.ComposeOption", Family: "try.ComposeOption", N: 2, Monad: mTry, WantVal: 1,
 		Steps: []step{{Bit: 0, Cb: idSup + 0, CbArgs: []int{16}, OptErr: true}, {Bit: 1, Cb: idSup + 1, CbArgs: []int{0}}},
+		Fn:    true,
 		Exec: func(t *T) {
-			resTry(t, try.ComposeOption(fn1(t, idSup+0, retOptVal(t, 0)), fn1(t, idSup+1, retTryVal(t, 1)))(t.vals[16]))
+			f := try.ComposeOption(fn1(t, idSup+0, retOptVal(t, 0)), fn1(t, idSup+1, retTryVal(t, 1)))
+			t.run(func() { resTry(t, f(t.vals[16])) })
 		}})
 	reg(&site{Key: "try.FromOption", Family: "try.FromOption", N: 1, Monad: mTry, WantVal: 0, Steps: []step{{Bit: 0, OptErr: true}},
 		Exec: func(t *T) { resTry(t, try.FromOption(optV(t, 0, t.vals[0]))) }})
 	// statet forms that mix a state function with Try-valued pieces
 	reg(&site{Key: "statet.MapT", Family: "statet.MapT", N: 1, Monad: mState, WantVal: -1, Steps: one, Final: &final{Args: []int{0}, Bit: -1},
-		Exec: func(t *T) { resSt(t, statet.MapT(stV(t, 0, t.vals[0]), fn1(t, idF, func(r int) fp.Try[int] { return fp.Success(r) }))) }})
-	reg(&site{Key: "statet.MapT#failing-function", Family: "statet.MapT", N: 2, Monad: mTry, WantVal: -1,
+		Exec: func(t *T) {
+			resSt(t, statet.MapT(stV(t, 0, t.vals[0]), fn1(t, idF, func(r int) fp.Try[int] { return fp.Success(r) })))
+		}})
+	reg(&site{Key: "statet.MapT#failing-function", Family: "statet.MapT", N: 2, Monad: mTry, WantVal: -1, Prog: true,
 		// the function's Try result is a plain value (not a state function): modelled with the Try carrier,
 		// the operand's run is logged explicitly as a user function of position 0
 		Steps: []step{{Bit: 0, Cb: idRun + 0}}, Final: &final{Args: []int{0}, Bit: 1},
 		Exec: func(t *T) { resSt(t, statet.MapT(stV(t, 0, t.vals[0]), fn1(t, idF, retTry(t, 1)))) }})
 	reg(&site{Key: "statet.MapWithState", Family: "statet.MapWithState", N: 1, Monad: mState, WantVal: -1, Steps: one, Final: &final{NoArgs: true, Bit: -1},
 		Exec: func(t *T) { resSt(t, statet.MapWithState(stV(t, 0, t.vals[0]), fn2(t, idF, retInt))) }})
-	reg(&site{Key: "statet.MapWithStateT", Family: "statet.MapWithStateT", N: 1, Monad: mTry, WantVal: -1,
+	reg(&site{Key: "statet.MapWithStateT", Family: "statet.MapWithStateT", N: 1, Monad: mTry, WantVal: -1, Prog: true,
 		Steps: []step{{Bit: 0, Cb: idRun + 0}}, Final: &final{NoArgs: true, Bit: 1},
 		Exec: func(t *T) { resSt(t, statet.MapWithStateT(stV(t, 0, t.vals[0]), fn2(t, idF, retTry(t, 1)))) }})
 	reg(&site{Key: "statet.FlatMapConst", Family: "statet.FlatMapConst", N: 2, Monad: mState, WantVal: 1, Steps: []step{{Bit: 0}, {Bit: 1}},
 		Exec: func(t *T) { resSt(t, statet.FlatMapConst(stV(t, 0, t.vals[0]), stV(t, 1, t.vals[1]))) }})
-	reg(&site{Key: "statet.ApTry", Family: "statet.ApTry", N: 2, Monad: mTry, WantVal: -1,
-		Steps: []step{{Bit: 0, Cb: idRun + 0}, {Bit: 1}}, Final: &final{Args: []int{1}, Bit: -1},
+	reg(&site{Key: "statet.ApTry", Family: "statet.ApTry", N: 2, Monad: mTry, WantVal: -1, Prog: true,
+		Steps: []step{{Bit: 0, Cb: idRun + 0}, {Bit: 1, Fixed: true}}, Final: &final{Args: []int{1}, Bit: -1},
 		Exec: func(t *T) { resSt(t, statet.ApTry(stV(t, 0, cur1(t, idF)), tryV(t, 1, t.vals[1]))) }})
-	reg(&site{Key: "statet.ApOption", Family: "statet.ApOption", N: 2, Monad: mTry, WantVal: -1,
-		Steps: []step{{Bit: 0, Cb: idRun + 0}, {Bit: 1, OptErr: true}}, Final: &final{Args: []int{1}, Bit: -1},
+	reg(&site{Key: "statet.ApOption", Family: "statet.ApOption", N: 2, Monad: mTry, WantVal: -1, Prog: true,
+		Steps: []step{{Bit: 0, Cb: idRun + 0}, {Bit: 1, OptErr: true, Fixed: true}}, Final: &final{Args: []int{1}, Bit: -1},
 		Exec: func(t *T) { resSt(t, statet.ApOption(stV(t, 0, cur1(t, idF)), optV(t, 1, t.vals[1]))) }})
 	reg(&site{Key: "statet.WithState", Family: "statet.WithState", N: 1, Monad: mState, WantVal: 0,
 		Steps: []step{{Bit: 0, Cb: idSup + 0, NoArgs: true}},
-		Exec: func(t *T) { resSt(t, statet.WithState(fn1(t, idSup+0, retStVal(t, 0)))) }})
-	reg(&site{Key: "statet.GetST", Family: "statet.GetST", N: 1, Monad: mTry, WantVal: 0,
+		Exec:  func(t *T) { resSt(t, statet.WithState(fn1(t, idSup+0, retStVal(t, 0)))) }})
+	reg(&site{Key: "statet.GetST", Family: "statet.GetST", N: 1, Monad: mTry, WantVal: 0, Prog: true,
 		Steps: []step{{Bit: 0, Cb: idSup + 0, NoArgs: true}},
-		Exec: func(t *T) { resSt(t, statet.GetST(fn1(t, idSup+0, retTryVal(t, 0)))) }})
-	reg(&site{Key: "statet.ModifyT", Family: "statet.ModifyT", N: 1, Monad: mTry, WantVal: -1,
+		Exec:  func(t *T) { resSt(t, statet.GetST(fn1(t, idSup+0, retTryVal(t, 0)))) }})
+	reg(&site{Key: "statet.ModifyT", Family: "statet.ModifyT", N: 1, Monad: mTry, WantVal: -1, Prog: true,
 		Steps: []step{{Bit: 0, Cb: idSup + 0, NoArgs: true}},
-		Exec: func(t *T) { resSt(t, statet.ModifyT(fn1(t, idSup+0, retTryVal(t, 0)))) }})
+		Exec:  func(t *T) { resSt(t, statet.ModifyT(fn1(t, idSup+0, retTryVal(t, 0)))) }})
 
 	registerRecover()
 	registerPanic()
@@ -290,9 +426,9 @@ func init() {
 // ---- Recover* / OrElse* / Or* -----------------------------------------------------------
 
 const (
-	recUntouched = iota // result must be the receiver's own success value
-	recNotJudged        // handler decided the result; the property says nothing about it
-	recPropagated       // the receiver's failure must come out unchanged (transformer forms)
+	recUntouched  = iota // result must be the receiver's own success value
+	recNotJudged         // handler decided the result; the property says nothing about it
+	recPropagated        // the receiver's failure must come out unchanged (transformer forms)
 )
 
 type recWant struct {
@@ -313,7 +449,7 @@ func recStd(t *T, state bool, onFail ...ev) recWant {
 	return recWant{log: append(pre, onFail...), kind: recNotJudged}
 }
 
-func (t *T) hErr(id int) ev  { return ev{ID: id, Err: t.errs[0]} }
+func (t *T) hErr(id int) ev   { return ev{ID: id, Err: t.errs[0]} }
 func (t *T) hPlain(id int) ev { return ev{ID: id} }
 
 // handlers (all log; results are irrelevant to the oracle but vary with cfg)
@@ -572,17 +708,7 @@ func registerRecover() {
 		rs.handler = !valueOnlyForms[rs.key]
 		s := &site{Key: rs.key, Family: "recover:" + rs.key, N: 1, Monad: rs.monad, WantVal: -1, NCustom: 2 * rs.ncfg}
 		s.Steps = []step{{Bit: 0}}
-		s.Custom = func(t *T, c int) {
-			t.mask = uint64(c & 1)
-			cfg := c >> 1
-			t.custNote = fmt.Sprintf("receiver fails=%v handler-config=%d", t.bit(0), cfg)
-			want := rs.run(t, cfg)
-			t.nonTrivial = t.bit(0) || rs.handler
-			if rs.handler && want.kind != recNotJudged {
-				t.skipped = 1
-			} else if rs.handler && len(want.log) > 0 && want.log[len(want.log)-1].ID == idIsDef {
-				t.skipped = 1 // isDefinedAt said no: the then-branch is correctly not invoked
-			}
+		check := func(t *T, want recWant) {
 			t.compareLog(want.log)
 			switch want.kind {
 			case recUntouched:
@@ -593,6 +719,42 @@ func registerRecover() {
 				if t.out.ok || t.out.err != error(t.errs[0]) {
 					t.violate("failure-not-propagated", fmt.Sprintf("the receiver is Failure(E0); the result is %s", t.outString()))
 				}
+			}
+		}
+		s.Custom = func(t *T, c int) {
+			t.mask = uint64(c & 1)
+			t.mask0 = t.mask
+			cfg := c >> 1
+			note := func(t *T) { t.custNote = fmt.Sprintf("receiver fails=%v handler-config=%d", t.bit(0), cfg) }
+			note(t)
+			want := rs.run(t, cfg)
+			t.nlog0 = len(t.log)
+			t.nonTrivial = t.bit(0) || rs.handler
+			if rs.handler && want.kind != recNotJudged {
+				t.skipped = 1
+			} else if rs.handler && len(want.log) > 0 && want.log[len(want.log)-1].ID == idIsDef {
+				t.skipped = 1 // isDefinedAt said no: the then-branch is correctly not invoked
+			}
+			check(t, want)
+			if t.prog == nil {
+				return
+			}
+			// fp.StateT.Recover*: the recovering program OBJECT is run again: same receiver outcome, the other
+			// outcome, back again, from other initial states. The expectation of an execution comes from the
+			// same recStd rule (evaluated on a scratch trace whose own, freshly built program is the comparison
+			// value for "is the deviation specific to running the value again").
+			t.acc["traces.executed_more_than_once"]++
+			p0 := t.prog
+			for _, sp := range []struct {
+				flip uint64
+				init int
+			}{{0, state0}, {1, state1}, {0, state1}, {1, state0}, {0, state2}} {
+				t.rerunStep(fmask{lo: t.mask0 ^ sp.flip}, sp.init, true, func() { note(t); p0() },
+					func(tt *T) {
+						t3 := tt.scratch()
+						check(tt, rs.run(t3, cfg))
+					},
+					func(t2 *T) { note(t2); check(t2, rs.run(t2, cfg)) })
 			}
 		}
 		reg(s)
@@ -606,7 +768,7 @@ var valueOnlyForms = map[string]bool{"fp.Try.OrTry": true, "fp.Try.OrElse": true
 
 func (t *T) outString() string {
 	if t.out.ok {
-		return fmt.Sprintf("success(%v)", t.out.val)
+		return "success(" + short(t.out.val) + ")"
 	}
 	return "failure(" + errName(t.out.err) + ")"
 }
@@ -628,12 +790,41 @@ const (
 	behPanicNilDeref
 	behPanicIndex
 	behPanicCustomRuntimeError
+	// panic values that look like the library's own captured-panic errors, or are produced by the library
+	behPanicUserPanicPtr     // user error type with Panic() and Stack() (implements try.Panic), pointer
+	behPanicUserPanicValue   // the same as a comparable struct value
+	behPanicUserPanicNoError // Panic() and Stack() but no Error(): not an error at all
+	behPanicGetFailedTry     // Get() of Failure(E1): the function panics with what Get() raises
+	behPanicGetNestedOf      // Get() of the failure of an inner try.Of whose function panicked (nested capture)
+	behPanicGetNestedCall    // the same through try.Call / try.CallUnit, two levels deep
+	behPanicGetNestedFuture  // Get() of the value of a future whose task panicked (fp.PanicError)
+	behPanicRepanicCaptured  // panic(err) with the error of a captured panic, explicitly
+	behPanicWrappedCaptured  // panic(fmt.Errorf("…%w", error of a captured panic))
+	// errors with structure
+	behPanicWrapped      // fmt.Errorf("…%w", E1)
+	behPanicJoined       // errors.Join(E1, E2)
+	behPanicChameleon    // implements Unwrap, Is (always true) and As (claims every target it can)
+	behPanicTypedNilErr  // error((*T)(nil)): non-nil interface, nil pointer
+	behPanicTypedNilUser // error((*userPanic)(nil)): a typed nil that also has Panic()/Stack()
+	// other shapes
+	behPanicLargeArray  // 64 KiB array by value
+	behPanicLargeString // 1 MiB string
+	behPanicLargeSlice  // 2 MiB slice
+	behPanicFunc        // func value
+	behPanicMap         // map value
+	behPanicChan        // channel
 	nBeh
 )
 
 var behNames = []string{"return-value", "return-error", "panic(string)", "panic(error pointer)", "panic(int)", "panic(struct)",
 	"nil-map write (runtime.Error)", "panic(nil) (*runtime.PanicNilError)", "panic(value implementing error)", "panic([]int)",
-	"panic(*struct)", "nil dereference (runtime.Error)", "index out of range (runtime.Error)", "panic(user type implementing runtime.Error)"}
+	"panic(*struct)", "nil dereference (runtime.Error)", "index out of range (runtime.Error)", "panic(user type implementing runtime.Error)",
+	"panic(*user error with Panic() and Stack())", "panic(user error value with Panic() and Stack())", "panic(non-error value with Panic() and Stack())",
+	"Get() of Failure(E1)", "Get() of the failure of an inner try.Of that captured a panic", "Get() of a twice-captured panic (try.Call in try.CallUnit)",
+	"Get() of the value of a future whose task panicked", "panic(error of a captured panic)", "panic(fmt.Errorf(%w) around the error of a captured panic)",
+	"panic(fmt.Errorf(%w))", "panic(errors.Join)", "panic(error implementing Unwrap, Is and As)", "panic(typed nil pointer in an error)",
+	"panic(typed nil pointer of a type with Panic() and Stack())",
+	"panic([8192]int64)", "panic(1 MiB string)", "panic(2 MiB slice)", "panic(func)", "panic(map)", "panic(chan)"}
 
 type payload struct {
 	A int
@@ -649,8 +840,83 @@ type myRuntimeErr struct{ n int }
 func (e *myRuntimeErr) Error() string { return "my runtime error" }
 func (e *myRuntimeErr) RuntimeError() {}
 
-// raiseRuntime provokes a genuine runtime panic, notes the very value the runtime raised and
-// lets it continue: the library under test sees a panic with exactly that value.
+// userPanic is a user error type that happens to have the method set of try.Panic.
+type userPanic struct {
+	inner any
+	n     int
+}
+
+func (e *userPanic) Error() string {
+	if e == nil {
+		return "nil userPanic"
+	}
+	return fmt.Sprintf("userPanic %d", e.n)
+}
+func (e *userPanic) Panic() any {
+	if e == nil {
+		return nil
+	}
+	return e.inner
+}
+func (e *userPanic) Stack() []byte { return []byte("user stack") }
+
+type userPanicVal struct {
+	Inner string
+	N     int
+}
+
+func (e userPanicVal) Error() string { return fmt.Sprintf("userPanicVal %d", e.N) }
+func (e userPanicVal) Panic() any    { return e.Inner }
+func (e userPanicVal) Stack() []byte { return nil }
+
+type panicLookalike struct{ N int }
+
+func (e panicLookalike) Panic() any    { return "lookalike-inner" }
+func (e panicLookalike) Stack() []byte { return []byte("lookalike stack") }
+
+// chameleon claims to be everything: Is is always true, As fills every target it can, Unwrap leads to E1.
+type chameleon struct {
+	inner error
+	n     int
+}
+
+func (e *chameleon) Error() string { return fmt.Sprintf("chameleon %d", e.n) }
+func (e *chameleon) Unwrap() error { return e.inner }
+func (e *chameleon) Is(error) bool { return true }
+func (e *chameleon) As(tg any) bool {
+	switch p := tg.(type) {
+	case **sentErr:
+		*p = &sentErr{pos: 63, nonce: -1}
+		return true
+	case **userPanic:
+		*p = &userPanic{inner: "from-As", n: -1}
+		return true
+	case *error:
+		*p = errors.New("from-As")
+		return true
+	}
+	// any interface that a userPanic satisfies (try.Panic, interface{ Panic() any }, …)
+	if rv := reflect.ValueOf(tg); rv.Kind() == reflect.Pointer && !rv.IsNil() && rv.Elem().Kind() == reflect.Interface {
+		if up := reflect.ValueOf(&userPanic{inner: "from-As", n: -1}); up.Type().Implements(rv.Elem().Type()) {
+			rv.Elem().Set(up)
+			return true
+		}
+	}
+	return false
+}
+
+type nilErr struct{ n int }
+
+func (e *nilErr) Error() string {
+	if e == nil {
+		return "nil nilErr"
+	}
+	return "nilErr"
+}
+
+// raiseRuntime provokes a genuine panic inside f (a runtime panic, or a library function that panics such
+// as Try.Get on a failure), notes the very value that was raised and lets it continue: the capture site
+// under test sees a panic with exactly that value.
 func (t *T) raiseRuntime(f func()) {
 	defer func() {
 		p := recover()
@@ -690,6 +956,64 @@ func (t *T) behave() (int, error) {
 		t.raiseRuntime(func() { var p *payload; t.vals[2] = p.A })
 	case behPanicIndex:
 		t.raiseRuntime(func() { s := []int{1}; i := 5 + t.vals[1]&1; t.vals[2] = s[i] })
+	case behPanicUserPanicPtr:
+		t.raised = error(&userPanic{inner: fmt.Sprintf("inner-%d", t.vals[1]), n: t.vals[1]})
+	case behPanicUserPanicValue:
+		t.raised = error(userPanicVal{Inner: "inner-value", N: t.vals[1]})
+	case behPanicUserPanicNoError:
+		t.raised = panicLookalike{t.vals[1]}
+	case behPanicGetFailedTry:
+		t.raiseRuntime(func() { t.vals[2] = fp.Failure[int](t.errs[1]).Get() })
+	case behPanicGetNestedOf:
+		inner := try.Of(func() int { panic(fmt.Sprintf("inner-boom-%d", t.vals[1])) })
+		t.raiseRuntime(func() { t.vals[2] = inner.Get() })
+	case behPanicGetNestedCall:
+		inner := try.Call(func() (int, error) { panic(payload{t.vals[1], "innermost"}) })
+		mid := try.CallUnit(func() error { inner.Get(); return nil })
+		t.raiseRuntime(func() { mid.Get() })
+	case behPanicGetNestedFuture:
+		f := future.Apply(func() int { panic(fmt.Sprintf("task-boom-%d", t.vals[1])) }, &inlineExec{})
+		if !f.IsCompleted() {
+			ch := make(chan struct{})
+			f.OnComplete(func(fp.Try[int]) { close(ch) }, &inlineExec{})
+			<-ch
+		}
+		t.raiseRuntime(func() { t.vals[2] = f.Value().Get() })
+	case behPanicRepanicCaptured:
+		inner := try.Of(func() int { panic(t.errs[2]) })
+		t.raised = inner.Failed().Get()
+	case behPanicWrappedCaptured:
+		inner := try.Of(func() int { panic(fmt.Sprintf("wrapped-inner-%d", t.vals[1])) })
+		t.raised = fmt.Errorf("context %d: %w", t.vals[1], inner.Failed().Get())
+	case behPanicWrapped:
+		t.raised = fmt.Errorf("context %d: %w", t.vals[1], t.errs[1])
+	case behPanicJoined:
+		t.raised = errors.Join(t.errs[1], t.errs[2])
+	case behPanicChameleon:
+		t.raised = error(&chameleon{inner: t.errs[1], n: t.vals[1]})
+	case behPanicTypedNilErr:
+		t.raised = error((*nilErr)(nil))
+	case behPanicTypedNilUser:
+		t.raised = error((*userPanic)(nil))
+	case behPanicLargeArray:
+		var a [8192]int64
+		for i := range a {
+			a[i] = int64(t.vals[1] + i)
+		}
+		t.raised = a
+	case behPanicLargeString:
+		t.raised = strings.Repeat(fmt.Sprintf("%07d!", t.vals[1]%10000000), 1<<17)
+	case behPanicLargeSlice:
+		sl := make([]int, 1<<18)
+		sl[0], sl[len(sl)-1] = t.vals[1], t.vals[2]
+		t.raised = sl
+	case behPanicFunc:
+		v := t.vals[1]
+		t.raised = func() int { return v }
+	case behPanicMap:
+		t.raised = map[string]int{"k": t.vals[1]}
+	case behPanicChan:
+		t.raised = make(chan int, 1)
 	}
 	panic(t.raised)
 }
@@ -750,6 +1074,46 @@ func samePanic(got, want any) bool {
 
 type panicker interface{ Panic() any }
 
+// describe renders a panic value for a report: type, a bounded rendering, and the address for pointers.
+func describe(v any) string {
+	if v == nil {
+		return "nil"
+	}
+	s := ""
+	func() {
+		defer func() {
+			if recover() != nil {
+				s = "<unprintable>"
+			}
+		}()
+		switch x := v.(type) {
+		case string:
+			s = x
+		case [8192]int64:
+			s = fmt.Sprintf("[%d %d … %d]", x[0], x[1], x[len(x)-1])
+		case []int:
+			if len(x) > 8 {
+				s = fmt.Sprintf("[%d %d … %d] len=%d", x[0], x[1], x[len(x)-1], len(x))
+			} else {
+				s = fmt.Sprint(x)
+			}
+		case error:
+			s = errName(x)
+		default:
+			s = fmt.Sprintf("%v", v)
+		}
+	}()
+	if len(s) > 120 {
+		s = s[:120] + fmt.Sprintf("… (%d bytes)", len(s))
+	}
+	rv := reflect.ValueOf(v)
+	switch rv.Kind() {
+	case reflect.Pointer, reflect.Map, reflect.Func, reflect.Chan, reflect.Slice:
+		return fmt.Sprintf("%T(%s)@%#x", v, s, rv.Pointer())
+	}
+	return fmt.Sprintf("%T(%s)", v, s)
+}
+
 func regPanicSite(key, family string, n int, flags int, exec func(t *T)) {
 	var behs []int
 	for bh := 0; bh < nBeh; bh++ {
@@ -759,13 +1123,16 @@ func regPanicSite(key, family string, n int, flags int, exec func(t *T)) {
 		behs = append(behs, bh)
 	}
 	s := &site{Key: key, Family: family, N: n, Monad: mTry, WantVal: -1, NCustom: len(behs)}
-	s.Custom = func(t *T, c int) {
-		t.beh = behs[c]
-		t.mask = uint64(t.beh)
-		t.nonTrivial = t.beh != behValue
+	// runOnce: one execution of the capture site (mech builds and calls, or applies the kept function value
+	// again) with behaviour int(t.mask); a panic that reaches the caller is noted in t.escaped.
+	runOnce := func(t *T, mech func()) {
+		t.beh = int(t.mask)
 		t.custNote = behNames[t.beh]
-		t.exec = &inlineExec{}
-		escaped := func() (p any) {
+		if t.exec == nil {
+			t.exec = &inlineExec{}
+		}
+		t.exec.n = 0
+		t.escaped = func() (p any) {
 			defer func() {
 				if r := recover(); r != nil {
 					if _, isB := r.(vrt.BudgetExceeded); isB {
@@ -774,7 +1141,7 @@ func regPanicSite(key, family string, n int, flags int, exec func(t *T)) {
 					p = r
 				}
 			}()
-			exec(t)
+			mech()
 			return nil
 		}()
 		t.w.Add("panic.kind."+behNames[t.beh], 1)
@@ -785,8 +1152,10 @@ func regPanicSite(key, family string, n int, flags int, exec func(t *T)) {
 				t.w.Add("future.executor_argument_ignored."+family, 1)
 			}
 		}
-		if escaped != nil {
-			t.violate("panic-escaped", fmt.Sprintf("the user function did %s; the panic was not captured and reached the caller: %v", behNames[t.beh], escaped))
+	}
+	check := func(t *T) {
+		if t.escaped != nil {
+			t.violate("panic-escaped", fmt.Sprintf("the user function did %s; the panic was not captured and reached the caller: %s", behNames[t.beh], describe(t.escaped)))
 			return
 		}
 		var args []int
@@ -825,14 +1194,22 @@ func regPanicSite(key, family string, n int, flags int, exec func(t *T)) {
 				t.violate("panic-lost", fmt.Sprintf("the user function did %s; the result is %s", behNames[t.beh], t.outString()))
 				return
 			}
-			p, isP := asPanicker(o.err)
+			// the failure itself must expose the panic value: the error's OWN Panic() method (errors.As is
+			// not consulted: a panic value that answers As/Unwrap must not be mistaken for the capture)
+			p, isP := o.err.(panicker)
 			if !isP {
 				t.violate("panic-not-exposed", fmt.Sprintf("the user function did %s; the failure %s does not expose Panic()", behNames[t.beh], errName(o.err)))
 				return
 			}
+			if sameIface(o.err, t.raised) {
+				// the failure IS the panic value (no capture wrapper around it): its Panic() is the value's own
+				// method and reports the value's inner cause, not what the function panicked with
+				t.violate("panic-value-lost", fmt.Sprintf("the user function did %s with value %s; the failure is that value itself, so Panic() returns its inner %s, not the value the function panicked with", behNames[t.beh], describe(t.raised), describe(p.Panic())))
+				return
+			}
 			got := p.Panic()
 			if !samePanic(got, t.raised) {
-				t.violate("panic-value-lost", fmt.Sprintf("the user function did %s with value %T(%v); Panic() returns %T(%v)", behNames[t.beh], t.raised, t.raised, got, got))
+				t.violate("panic-value-lost", fmt.Sprintf("the user function did %s with value %s; Panic() returns %s", behNames[t.beh], describe(t.raised), describe(got)))
 				return
 			}
 			switch t.beh {
@@ -847,7 +1224,37 @@ func regPanicSite(key, family string, n int, flags int, exec func(t *T)) {
 			}
 		}
 	}
+	s.Custom = func(t *T, c int) {
+		t.mask = uint64(behs[c])
+		t.mask0 = t.mask
+		t.nonTrivial = behs[c] != behValue
+		runOnce(t, func() { exec(t) })
+		t.nlog0 = len(t.log)
+		check(t)
+		if t.refn == nil {
+			return
+		}
+		// future.FuncN/UnitN return a function value: it is applied again with the same, the returning, a PRNG
+		// chosen and again the first behaviour
+		t.acc["traces.executed_more_than_once"]++
+		f0 := t.refn
+		first := behs[c]
+		for _, bh := range []int{first, behValue, behs[t.rng.IntN(len(behs))], first} {
+			t.rerunStep(fmask{lo: uint64(bh)}, state0, false, func() { runOnce(t, f0) }, check, func(t2 *T) {
+				runOnce(t2, func() { exec(t2) })
+				check(t2)
+			})
+		}
+	}
 	reg(s)
+}
+
+// sameIface: both interfaces hold the very same dynamic value (same type; same pointer / equal comparable value).
+func sameIface(a, b any) bool {
+	if a == nil || b == nil {
+		return false
+	}
+	return samePanic(a, b)
 }
 
 func asPanicker(e error) (panicker, bool) {
@@ -865,12 +1272,18 @@ func asPanicker(e error) (panicker, bool) {
 }
 
 func registerPanic() {
+	if len(behNames) != nBeh {
+		panic(fmt.Sprintf("c02: %d behaviour names for %d behaviours", len(behNames), nBeh))
+	}
 	regPanicSite("try.Of", "try.Of", 0, flagVal, func(t *T) { resTry(t, try.Of(fn0(t, idF, t.behaveVal))) })
 	regPanicSite("try.Call", "try.Call", 0, flagVal|flagErr, func(t *T) { resTry(t, try.Call(fp0(t, idF, t.behavePair))) })
 	regPanicSite("try.CallUnit", "try.CallUnit", 0, flagErr, func(t *T) { resTry(t, try.CallUnit(fn0(t, idF, t.behaveErr))) })
 	regPanicSite("future.Apply", "future.Apply", 0, flagVal|flagFut, func(t *T) { resFut(t, future.Apply(fn0(t, idF, t.behaveVal), t.exec)) })
 	regPanicSite("future.Apply2", "future.Apply2", 0, flagVal|flagErr|flagFut, func(t *T) { resFut(t, future.Apply2(fp0(t, idF, t.behavePair), t.exec)) })
-	regPanicSite("future.Func0", "future.FuncN", 0, flagVal|flagErr|flagFut, func(t *T) { resFut(t, future.Func0(fp0(t, idF, t.behavePair), t.exec)(fp.Unit{})) })
+	regPanicSite("future.Func0", "future.FuncN", 0, flagVal|flagErr|flagFut, func(t *T) {
+		f := future.Func0(fp0(t, idF, t.behavePair), t.exec)
+		t.run(func() { resFut(t, f(fp.Unit{})) })
+	})
 }
 
 var _ = option.Some[int]
